@@ -39,6 +39,12 @@ namespace igris
         if (str.size() == 0)
             return outvec;
 
+        // strchr() also finds the terminator of delims, a NUL byte of the
+        // (pointer, length) input is not a delimiter
+        auto is_delim = [delims](char c) {
+            return c != '\0' && strchr(delims, c) != NULL;
+        };
+
         char *strt;
         char *ptr = (char *)str.data();
         char *end = (char *)str.data() + str.size();
@@ -46,7 +52,7 @@ namespace igris
         while (true)
         {
             // Skip delimiters
-            while (ptr != end && strchr(delims, *ptr) != NULL)
+            while (ptr != end && is_delim(*ptr))
                 ptr++;
 
             if (ptr == end)
@@ -54,7 +60,7 @@ namespace igris
 
             strt = ptr;
 
-            while (ptr != end && strchr(delims, *ptr) == NULL)
+            while (ptr != end && !is_delim(*ptr))
                 ptr++;
 
             outvec.emplace_back(strt, ptr - strt);
